@@ -846,9 +846,9 @@ def _harness_class_names():
     out = set()
     import sys as _s
     for n, m in list(_s.modules.items()):
-        if m is not None and (n.startswith("checks.") or n == "checks"):
+        if m is not None and (n.startswith("checks.") or n == "checks" or n in ("sx.crypto_models", "sx.protostub", "sx.symsql")):
             for k, v in list(vars(m).items()):
-                if isinstance(v, type) and getattr(v, "__module__", "").startswith("checks"):
+                if isinstance(v, type) and getattr(v, "__module__", "").startswith(("checks", "sx.")):
                     out.add(k)
     return out
 
@@ -858,7 +858,7 @@ def stub_incomplete(e):
     if not isinstance(e, AttributeError):
         return False
     import re as _r
-    m = _r.search(r"'(\w+)' object has no attribute", str(e))
+    m = _r.search(r"'(\w+)' object has no attribute", str(e)) or _r.search(r"type object '(\w+)' has no attribute", str(e))
     return bool(m) and m.group(1) in _harness_class_names()
 
 
